@@ -354,6 +354,26 @@ def scalar_vector(case, ctx):
         raise Violation("C13.scalar.value", f"{case['op']} with {case['other_kind']} is not element-wise")
     if not (np.array_equal(s.wave, w0) and np.array_equal(s.value, v0)):
         raise Violation("C13.scalar.operand_changed", "the operand was modified")
+    # a numpy vector on the LEFT (vec * spectrum), for the spectrum as constructed and for one that is
+    # itself the result of a Spectrum-with-Spectrum operation
+    if case["other_kind"] == "array" and case["op"] == "multiply":          # (only multiplication is reflected: there is no __radd__)
+        fn = OPS[case["op"]]
+        with lentil_call("C13.scalar.left", "spectrum (op) spectrum"):
+            derived = s + s
+        for name, sp in (("constructed", s), ("derived", derived)):
+            vec = np.linspace(0.5, 2.0, len(np.asarray(sp.value)))
+            gw, gv = np.array(sp.wave, copy=True), np.array(sp.value, copy=True)
+            with lentil_call("C13.scalar.left", f"ndarray {case['op']} {name} spectrum"):
+                left = fn(vec, sp)
+                right = fn(sp, vec)
+            for side, r in (("vector on the left", left), ("vector on the right", right)):
+                if not isinstance(r, Spectrum):
+                    raise Violation("C13.scalar.left_type", f"{case['op']} of a {name} spectrum with a numpy {side} returned "
+                                                            f"{type(r).__name__}{getattr(r, 'shape', '')}, not a Spectrum")
+                if not np.array_equal(r.wave, gw) or not close(r.value, fn(vec, gv), 1e-14):
+                    raise Violation("C13.scalar.left_value", f"{case['op']} of a {name} spectrum with a numpy {side} is not element-wise "
+                                                             f"on the unchanged grid")
+        ctx.tag("ndarray_on_the_left")
 
 
 # --- histories: operations interleaved with edits of the operands -----------------------------------
